@@ -35,7 +35,7 @@ import (
 
 type caseT struct {
 	Index     int        `json:"index"`
-	Kind      string     `json:"kind"` // matrix | chunked | largeclose | nbclient
+	Kind      string     `json:"kind"` // matrix | chunked | largeclose | nbclient | churn
 	Cell      httpx.Cell `json:"cell"`
 	Raw       int        `json:"raw_conns"`
 	Std       int        `json:"nethttp_clients"`
@@ -89,7 +89,7 @@ func genCase(r *h.Run, idx int) caseT {
 		if idx%2 == 0 {
 			c.Kind = "largeclose"
 		} else {
-			c.Kind = "matrix"
+			c.Kind = "churn"
 		}
 	}
 	c.Delay = rng.Intn(2) == 0
@@ -132,6 +132,11 @@ func genCase(r *h.Run, idx int) caseT {
 		if c.Raw > 24 && c.MaxReq > 300000 {
 			c.MaxReq = 300000
 		}
+	case "churn":
+		c.Raw = 32
+		c.Depth, c.Rounds = 1+rng.Intn(2), 2+rng.Intn(2)
+		c.MaxResp, c.MaxReq = 2000, 500
+		c.Jitter = true
 	case "largeclose":
 		c.Raw = 1 + rng.Intn(3)
 		c.Depth, c.Rounds = 1, 1
@@ -318,10 +323,13 @@ func (e *env) runServerCase() {
 		go func(i int) {
 			defer wg.Done()
 			rng := rand.New(rand.NewSource(c.Seed ^ int64(i+1)*0x9E3779B97F4A7C))
-			if c.Kind == "largeclose" {
+			switch c.Kind {
+			case "largeclose":
 				e.largeCloseClient(i, rng, addr)
-			} else {
-				e.rawClient(i, rng, addr)
+			case "churn":
+				e.churnClient(i, rng, addr)
+			default:
+				e.rawClient(fmt.Sprintf("r%d", i), rng, addr)
 			}
 		}(i)
 	}
